@@ -505,6 +505,68 @@ impl Drv {
     }
 }
 
+/// Deterministic pass over every accessor x suggestion variant x ANSI on/off (sized for Miri): the paths on which strings
+/// and suggestions cross the boundary are all taken at least once, whatever the random sessions happen to draw.
+unsafe fn scripted(d: &mut Drv) {
+    // (layout index, suggestions, ansi, old vowel-sign order)
+    let all: [(usize, bool, bool, bool); 6] = [(0, false, true, false), (0, false, false, false), (1, false, true, true), (1, true, true, true), (0, true, true, false), (1, true, false, true)];
+    // under Miri every key event with suggestions costs tens of seconds (regex compilation is interpreted):
+    // the small mode keeps the three suggestions-off set-ups and one short suggestions-on word
+    let setups: &[(usize, bool, bool, bool)] = if d.small { &all[..4] } else { &all[..] };
+    for &(li, sugg, ansi, karorder) in setups {
+        d.call("riti_config_new");
+        let c = riti_config_new();
+        let l = CString::new(d.layouts[li].clone()).unwrap();
+        d.call("riti_config_set_layout_file");
+        riti_config_set_layout_file(c, l.as_ptr());
+        let dd = CString::new(d.data_dir.clone()).unwrap();
+        d.call("riti_config_set_database_dir");
+        riti_config_set_database_dir(c, dd.as_ptr());
+        d.call("riti_config_set_phonetic_suggestion");
+        riti_config_set_phonetic_suggestion(c, sugg);
+        d.call("riti_config_set_fixed_suggestion");
+        riti_config_set_fixed_suggestion(c, sugg);
+        d.call("riti_config_set_ansi_encoding");
+        riti_config_set_ansi_encoding(c, ansi);
+        d.call("riti_config_set_fixed_old_kar_order");
+        riti_config_set_fixed_old_kar_order(c, karorder);
+        d.call("riti_config_set_suggestion_include_english");
+        riti_config_set_suggestion_include_english(c, true);
+        d.call("riti_context_new_with_config");
+        let ctx = riti_context_new_with_config(c);
+        d.next_ctx += 1;
+        d.ctxs.push(LiveCtx { ptr: ctx, id: d.next_ctx, fixed: li != 0, ansi, on_screen: 0, highlight: 0 });
+        d.cfgs.push(LiveCfg { ptr: c, usable: true, fixed: li != 0, ansi });
+        let xi = d.ctxs.len() - 1;
+        // words chosen so that the pre-edit text differs in length from the candidate under ANSI (e-kar, conjuncts, ASCII),
+        // a left-standing sign first (empty auxiliary text while it is pending), punctuation, and a backspace to empty
+        let words: [&[u16]; 5] = [&[0xA0A0, 0xA09A], &[0xA09E, 0xA0A0], &[0xA096, 0xA0A2, 0xA09E], &[0x0034], &[0xA0A0, 0x0035, 0xA0A0, 0x001A]];
+        let nwords = if d.small && sugg { 1 } else { words.len() };
+        for w in words.iter().take(nwords) {
+            // with suggestions on in small mode: only the left-standing sign first (empty auxiliary text) and one more key
+            let w: &[u16] = if d.small && sugg { &[0xA09E, 0xA0A0] } else { w };
+            for &k in w {
+                d.call("riti_get_suggestion_for_key");
+                let s = riti_get_suggestion_for_key(ctx, k, 0, 0);
+                d.adopt(xi, s);
+                let i = d.suggs.len() - 1;
+                d.readout(i);
+            }
+            d.call("riti_context_backspace_event");
+            let s = riti_context_backspace_event(ctx, false);
+            d.adopt(xi, s);
+            d.call("riti_context_finish_input_session");
+            riti_context_finish_input_session(ctx);
+            d.ctxs[xi].on_screen = 0;
+        }
+        // free every string taken so far now (each with the length the library gave it)
+        for st in std::mem::take(&mut d.strs) {
+            d.call("riti_string_free");
+            riti_string_free(st.ptr);
+        }
+    }
+}
+
 fn main() {
     let a: Vec<String> = std::env::args().collect();
     if a.len() < 5 {
@@ -541,6 +603,9 @@ fn main() {
             max_live: if small { 6 } else { 24 },
         };
         unsafe {
+            if s == 0 && a.iter().any(|x| x == "scripted") {
+                scripted(&mut d);
+            }
             let mut n = 0u64;
             while d.calls.values().sum::<u64>() < calls && n < calls * 4 {
                 d.step();
